@@ -86,50 +86,67 @@ func main() {
 	}
 	base := time.Now().Truncate(time.Second)
 	obsKeys := append(append([]string{}, keys...), "zz", "c")
-	sp := bfs.Spec[kvh.Op]{
-		Workers:  workers,
-		Deadline: deadline,
-		Run: func(path []kvh.Op) (string, []kvh.Op, *bfs.Violation) {
-			e := <-pool
-			defer func() { pool <- e }()
-			m := kvh.NewModel()
-			m.WriterInKey = true
-			if !run.Thorough() {
-				m.WriterKeys = map[string]bool{"a": true} // quick tier: only key a carries its writer (x4 states instead of x64)
-			}
-			ds := []*kvh.Driver{kvh.NewDriver("inmem", e.im.Fresh(), base), kvh.NewDriver("redis", e.rd.Fresh(), base)}
-			// A listed known finding (the Redis backend strips leading '/': "/c" and "c" alias) does not end the
-			// exploration behind it: it is recorded, the aliased key is no longer observed on that backend for
-			// the rest of the history, and the search goes on - other defects around slash-prefixed keys stay visible.
-			obs := map[string][]string{"inmem": obsKeys, "redis": obsKeys}
-			for i, o := range path {
-				w := m.Apply(o, ds[0])
-				for _, d := range ds {
-					cl, det := d.Exec(o, w)
-					if cl == "" {
-						cl, det = d.Observe(o, m, obs[d.Name])
-					}
-					if cl != "" {
-						if _, known := run.IsKnown(cl); known {
-							knownMu.Lock()
-							knownSeen[cl] = true
-							knownMu.Unlock()
-							if d.Name == "redis" {
-								obs["redis"] = keys // stop observing the alias "c"
+	search := func(keys []string, al []kvh.Op, obsKeys []string) (bfs.Stats, []bfs.Found[kvh.Op]) {
+		sp := bfs.Spec[kvh.Op]{
+			Workers:  workers,
+			Deadline: deadline,
+			Run: func(path []kvh.Op) (string, []kvh.Op, *bfs.Violation) {
+				e := <-pool
+				defer func() { pool <- e }()
+				m := kvh.NewModel()
+				m.WriterInKey = true
+				if !run.Thorough() {
+					m.WriterKeys = map[string]bool{"a": true} // quick tier: only key a carries its writer (x4 states instead of x64)
+				}
+				ds := []*kvh.Driver{kvh.NewDriver("inmem", e.im.Fresh(), base), kvh.NewDriver("redis", e.rd.Fresh(), base)}
+				// A listed known finding (the Redis backend strips leading '/': "/c" and "c" alias) does not end the
+				// exploration behind it: it is recorded, the aliased key is no longer observed on that backend for
+				// the rest of the history, and the search goes on - other defects around slash-prefixed keys stay visible.
+				obs := map[string][]string{"inmem": obsKeys, "redis": obsKeys}
+				for i, o := range path {
+					w := m.Apply(o, ds[0])
+					for _, d := range ds {
+						cl, det := d.Exec(o, w)
+						if cl == "" {
+							cl, det = d.Observe(o, m, obs[d.Name])
+						}
+						if cl != "" {
+							if _, known := run.IsKnown(cl); known {
+								knownMu.Lock()
+								knownSeen[cl] = true
+								knownMu.Unlock()
+								if d.Name == "redis" {
+									obs["redis"] = keys // stop observing the alias "c"
+								}
+								continue
 							}
-							continue
+							if i != len(path)-1 {
+								return "", nil, nil
+							}
+							return "", nil, &bfs.Violation{Sig: cl, Detail: det}
 						}
-						if i != len(path)-1 {
-							return "", nil, nil
-						}
-						return "", nil, &bfs.Violation{Sig: cl, Detail: det}
 					}
 				}
-			}
-			return m.CanonKey(ds[0], keys), al, nil
-		},
+				return m.CanonKey(ds[0], keys), al, nil
+			},
+		}
+		return bfs.Explore(sp)
 	}
-	st, found := bfs.Explore(sp)
+	st, found := search(keys, al, obsKeys)
+	// second, small search: the empty key is a key like any other (own search to keep the main one small)
+	ekeys := []string{"", "a"}
+	var eal []kvh.Op
+	for _, k := range ekeys {
+		eal = append(eal, kvh.Op{Kind: "create", Key: k, Val: 2}, kvh.Op{Kind: "put", Key: k, Val: 3, Exp: 1}, kvh.Op{Kind: "get", Key: k}, kvh.Op{Kind: "delete", Key: k},
+			kvh.Op{Kind: "cas", Key: k, Val: 3, Ver: kvh.VCurrent}, kvh.Op{Kind: "cas", Key: k, Val: 3, Ver: kvh.VStale})
+	}
+	eal = append(eal, kvh.Op{Kind: "getmany", Keys: []string{"", "a"}}, kvh.Op{Kind: "putmany", Keys: []string{"", "a"}, Vals: []int{2, 2}, Exps: []int{0, 0}},
+		kvh.Op{Kind: "list", Pat: "*"}, kvh.Op{Kind: "list", Pat: ""}, kvh.Op{Kind: "list", Pat: "a*"}, kvh.Op{Kind: "list", Pat: "[ab]"})
+	st2, found2 := search(ekeys, eal, []string{"", "a", "zz"})
+	found = append(found, found2...)
+	st.States += st2.States
+	st.Transitions += st2.Transitions
+	st.Fixpoint = st.Fixpoint && st2.Fixpoint
 	for k := range knownSeen {
 		run.Violation(k, "", nil)
 	}
